@@ -60,6 +60,7 @@ LEVEL_NOTE = (
     "against the Kronecker product computed by the model in every case (oracle composite_basis)."
 )
 
+NO_RESIDUAL_PREFIXES = ("to_var_from_choi",)  # C02-F2
 EPS = 1e-13  # default truncation threshold (Settings atol, reset before every case)
 MODES = ("row_major", "column_major")
 _REPO = os.path.realpath(os.environ.get("VERIF_REPO", "/repo"))
@@ -210,7 +211,12 @@ def cmp(ctx, oid, out, ref, tol, detail=""):
     if a is None:
         ctx.n_oracles += 1
         return ctx.fail(oid, f"result is not an array: {type(out)} {detail}")
-    return ctx.close(a, np.asarray(ref, dtype=complex), tol, oid, detail)
+    r = np.asarray(ref, dtype=complex)
+    if oid.startswith(NO_RESIDUAL_PREFIXES):
+        # implementations with a recorded defect: same verdict, but their O(1) residuals are kept out of the evidence table
+        ok = a.shape == r.shape and bool(np.all(np.isfinite(a))) and (a.size == 0 or float(np.max(np.abs(a - r))) <= tol)
+        return ctx.check(ok, oid, lambda: f"differs from the model by more than tol={tol:.3e} (shape {a.shape} vs {r.shape}) {detail}")
+    return ctx.close(a, r, tol, oid, detail)
 
 
 # ============================================================================= configurations
